@@ -348,7 +348,7 @@ class Engine:
                 pass  # assertion certainly fails
             else:
                 out.append((t["target"], cur))
-            if isinstance(t["unwind"], int) and not (is_const(c) and (c[1] == "1") == bool(t["expected"])) and self.overflow_possible(c, cur):
+            if isinstance(t["unwind"], int) and not (is_const(c) and (c[1] == "1") == bool(t["expected"])) and self.overflow_possible(c, cur) and not self.tally_step(b):
                 out.append((t["unwind"], cur.replace(flags=cur.flags | {("unwinding", b)})))
             return out
         if k == "switch":
@@ -358,6 +358,50 @@ class Engine:
         if k == "call":
             return self.do_call(b, t, cur, val)
         return []
+
+    def tally_step(self, b):
+        """Is the overflow check ending block `b` that of `n + 1` for a local integer `n` that is only ever assigned constants
+        and its own value plus one, and whose address is never taken?  Such a tally counts executed steps and cannot
+        wrap in a realisable run (assumption A8)."""
+        cache = self.__dict__.setdefault("_tally_cache", {})
+        if b in cache:
+            return cache[b]
+        cache[b] = False
+        blk = self.fn.blocks[b]
+        t = blk["term"]
+        c = t.get("cond") or {}
+        if t.get("msg") != "Overflow" or c.get("k") not in ("copy", "move") or len(c["pl"]["p"]) != 1:
+            return False
+        tmp = c["pl"]["l"]
+        add = [s for s in blk["stmts"] if s["k"] == "assign" and s["dst"]["l"] == tmp and not s["dst"]["p"]]
+        if len(add) != 1 or add[0]["rv"].get("k") != "bin" or add[0]["rv"].get("op") != "AddWithOverflow":
+            return False
+        a, c1 = add[0]["rv"]["a"], add[0]["rv"]["b"]
+        if a.get("k") not in ("copy", "move") or a["pl"]["p"] or c1.get("k") != "const" or c1.get("int") != "1":
+            return False
+        n = a["pl"]["l"]
+        if (self.fn.locals[n].get("ty") or {}).get("k") != "int":
+            return False
+        for b2, blk2 in enumerate(self.fn.blocks):
+            for si, s in enumerate(blk2["stmts"]):
+                if s["k"] != "assign":
+                    continue
+                rv = s["rv"]
+                if rv.get("k") in ("ref", "addr") and rv["pl"]["l"] == n and (rv.get("mut") is not False or rv["pl"]["p"]):
+                    return False
+                if s["dst"]["l"] == n:
+                    if s["dst"]["p"]:
+                        return False
+                    if rv.get("k") == "use" and rv["op"].get("k") == "const":
+                        continue
+                    if rv.get("k") == "use" and self._self_step(blk2, si, n):
+                        continue
+                    return False
+            t2 = blk2["term"]
+            if t2["k"] == "call" and t2.get("dst") and t2["dst"]["l"] == n:
+                return False
+        cache[b] = True
+        return True
 
     def overflow_possible(self, c, st):
         """Can the overflow flag `c` of counter arithmetic be set, given the strong-state?"""
@@ -778,7 +822,7 @@ class Engine:
                     if x2 is not None:
                         st = x2
             # comparisons involving a count read out of a hash table: remembered for the bookkeeping rules
-            if mentions(c, lambda e: e[0] == "call" and e[2].startswith("hashbrown::") and e[2].rsplit("::", 1)[1] in ("get", "get_mut")):
+            if mentions(c, lambda e: e[0] == "entryval" or (e[0] == "call" and e[2].startswith("hashbrown::") and e[2].rsplit("::", 1)[1] in ("get", "get_mut"))):
                 st = st.replace(flags=st.flags | {("cmp", op, x, y, truth)})
                 return st
             # pointer comparisons
